@@ -312,6 +312,8 @@ func UniverseC12() *Universe {
 	b.Block("k1", "M")
 	b.Block("k2", "P")
 	b.At("k1")
+	b.Block("j2", "M") // a sibling of k2 (two blocks that extend the same tip)
+	b.At("k1")
 	mk := func(name, who, prog string, in In) {
 		tx, _, err := b.W.BuildKVTx(who, prog, []In{in}, name)
 		if err != nil {
@@ -330,6 +332,8 @@ func UniverseC12() *Universe {
 	// the output sB1 / sB2 spend, cited at input position 1
 	b.Raw("sB3", BuildTx(TxSpec{Initiator: "B", Ins: []In{{Tx: tSp, Offset: 0}, {Tx: root, Offset: 1}}, Outs: []Out{{To: "D", Amount: "1100"}}, Nonce: "sB3"}), false)
 	b.Raw("sB4", BuildTx(TxSpec{Initiator: "B", Ins: []In{{Tx: tSp, Offset: 1}, {Tx: tSp, Offset: 0}}, Outs: []Out{{To: "D", Amount: "200"}}, Nonce: "sB4"}), false)
+	b.Raw("sB5", BuildTx(TxSpec{Initiator: "B", Ins: []In{{Tx: tSp, Offset: 0}}, Outs: []Out{{To: "C", Amount: "100"}}, Nonce: "sB5"}), false)
+	b.Raw("sB6", BuildTx(TxSpec{Initiator: "B", Ins: []In{{Tx: root, Offset: 1}, {Tx: tSp, Offset: 0}}, Outs: []Out{{To: "C", Amount: "1100"}}, Nonce: "sB6"}), false)
 	b.Raw("sB1", BuildTx(TxSpec{Initiator: "B", Ins: []In{{Tx: root, Offset: 1}}, Outs: []Out{{To: "A", Amount: "1000"}}, Nonce: "sB1"}), false)
 	b.Raw("sB2", BuildTx(TxSpec{Initiator: "B", Ins: []In{{Tx: root, Offset: 1}}, Outs: []Out{{To: "C", Amount: "999"}, {To: "$", Amount: "1"}}, Nonce: "sB2"}), false)
 	b.Raw("tC", BuildTx(TxSpec{Initiator: "C", Ins: []In{{Tx: root, Offset: 2}}, Outs: []Out{{To: "D", Amount: "1000"}}, Nonce: "tC"}), false)
